@@ -675,8 +675,14 @@ class Sym:
           r = r * self.t
         return Sym(r)
       return divide(1, self ** (-n))
-    if isinstance(o, (float, np.floating)) and o == 0.5:
-      return self.sqrt()
+    if isinstance(o, (float, np.floating)) and float(o * 2).is_integer():
+      # half-integer exponents: x ** (m + 1/2) = x ** m * sqrt(x), x ** -(m + 1/2) = 1 / (...)
+      h = float(o)
+      if h > 0:
+        m = int(h - 0.5)
+        r = self.sqrt()
+        return r if m == 0 else (self ** m) * r
+      return divide(1, self ** (-h))
     return NotImplemented
 
   # ---- comparisons ---------------------------------------------------------------------
